@@ -30,19 +30,20 @@ from ..recipes import ref as R
 LEVEL = "exploration"
 BUDGET_S = {"quick": 420, "thorough": 2400}
 N_PAIRS = {"quick": 10, "thorough": 190}
-KS = {"quick": [1, 10, 1100], "thorough": [1, 10, 1100, 5000]}
+KS = {"quick": [1, 10, 1100], "thorough": [1, 10, 1100, 5000]}  # + k = 6 in the directed family sweep
 
 
 def info(tier):
     return {
         "level": LEVEL,
-        "rule": "(prefix, M) pairs: M = random expression recipe (value, compiled value, gradient, Jacobian, Hessian, degree) or LP / "
-        "convex NLP problem (solve); prefix = k in %s colliding models; M observed after the prefix, and in the order M, prefix, M "
+        "rule": "(prefix, M) pairs: M = random or directed-family expression recipe (value, compiled value, gradient, Jacobian, Hessian, degree) or LP / "
+        "convex NLP problem (solve); prefix = k in %s colliding models (the last ones always M's own recipe with other data, bounds, parameter values or symmetric flags; in half of the pairs all data arrays of the process live in shared buffers rewritten in place); M observed after the prefix, and in the order M, prefix, M "
         "again; compared with a fresh-process twin (1e-12 for evaluation-type observations, 1e-9 for solves) and the reference "
         "interpreter; distinct = canonical (M, k) hashes" % KS[tier],
-        "required_cells": [f"k:{k}" for k in KS[tier]] + ["M:expression", "M:expression-with-parameters", "M:lp", "M:nlp", "order:prefix-then-M",
+        "required_cells": [f"k:{k}" for k in KS[tier]] + ["M:expression", "M:directed-family-sweep", "M:expression-with-parameters", "M:lp", "M:nlp", "order:prefix-then-M",
                                                           "order:M-prefix-M", "collision:same-names-other-bounds", "collision:same-parameter-names-other-values",
-                                                          "collision:rebuilt-identical", "collision:bare-leaves", "collision:shifted-positions"],
+                                                          "collision:rebuilt-identical", "collision:bare-leaves", "collision:shifted-positions",
+                                                          "collision:same-recipe-other-data-or-structure", "buffers:shared-in-place", "buffers:fresh-arrays"],
         "assumptions": ["fresh-process twin: same interpreter, PYTHONHASHSEED=0; NumPy arithmetic is deterministic, so equality is demanded to 1e-12",
                         "cache capacities are those of the tree under test (1024 / 4096 / 1024); k=1100 exceeds the compile and degree caches, k=5000 all three"],
     }
@@ -67,7 +68,97 @@ def cache_infos():
     return out
 
 
-def collide(rng, decls, k, rec, Vnames=None):
+TWIN_MEMO = {}  # the fresh-process observation of the current directed M (shared by the two orders it is run in)
+POOL = {}  # data-array buffers shared by every model of the monitored process that is built in "shared-buffers" mode
+
+
+def perturb_node(n, j):
+    """the same recipe with other data: every float array / matrix constant rescaled and shifted"""
+    if not isinstance(n, list) or not n:
+        return n
+    f = 1.5 + (j % 4)
+
+    def num(v):
+        if isinstance(v, list):
+            return [num(u) for u in v]
+        return v * f + 0.25 if isinstance(v, float) else v
+
+    if n[0] in ("arr", "arr2") and len(n) == 2:
+        return [n[0], num(n[1])]
+    if n[0] in ("qf", "dotQ"):
+        return [n[0], perturb_node(n[1], j), num(n[2])] + [perturb_node(x, j) for x in n[3:]]
+    if n[0] == "mv":
+        return [n[0], num(n[1]), perturb_node(n[2], j)]
+    return [perturb_node(x, j) if isinstance(x, list) else x for x in n]
+
+
+def perturb_decls(decls, j, what):
+    """the same names with other structure: bounds, domains, parameter values, the symmetric flag of square matrices
+    (what: 0 bounds, 1 symmetric flags, 2 parameter values, 3 flags + parameters, 4 everything)"""
+    d2 = copy.deepcopy(decls)
+    for d in d2:
+        if d["k"] in ("var", "vec", "mat") and what in (0, 4):
+            d["lb"], d["ub"] = -3.0 - j % 2, 4.0 + j % 3
+        if d["k"] == "mat" and d["r"] == d["c"] and what in (1, 3, 4):
+            d["sym"] = not d.get("sym")
+        if d["k"] == "par" and what in (2, 3, 4):
+            d["val"] = 7.0 + j % 5
+        if d["k"] == "vpar" and what in (2, 3, 4):
+            d["vals"] = [3.0 + (j + i) % 4 for i in range(len(d["vals"]))]
+        if d["k"] == "mpar" and what in (2, 3, 4):
+            d["vals"] = [[(v * 2.0 + 1.0) for v in row] for row in d["vals"]]
+    return d2
+
+
+def run_perturbed_twin(Mrec, j, pool, rec, what):
+    """N_j = M's own recipe with other data / structure, observed or solved exactly as M will be"""
+    if "node" in Mrec:
+        case2 = dict(Mrec)
+        case2["decls"] = perturb_decls(Mrec["decls"], j, what)
+        case2["node"] = perturb_node(Mrec["node"], j)
+        touch_expr(case2, pool, rec)
+    else:
+        prob2 = dict(Mrec["prob"])
+        prob2["decls"] = perturb_decls(prob2["decls"], j, what)
+        prob2["objective"] = perturb_node(prob2["objective"], j)
+        prob2["constraints"] = [perturb_node(c, j) for c in prob2["constraints"]]
+        b = B.Builder(prob2["decls"], buffers=pool)
+        P = b.problem(prob2)
+        with warnings.catch_warnings():
+            warnings.simplefilter("ignore")
+            P.solve(method=Mrec["method"])
+    rec.cells["collision:same-recipe-other-data-or-structure"] += 1
+
+
+def touch_expr(case, pool, rec):
+    """every observation route of observe_expr on a prefix model, each on its own (a structural change may rename variables:
+    the variable list is M's list extended by the model's own variables, missing point coordinates are filled in)"""
+    from optyx.core import autodiff as AD
+    from optyx.core import compiler as C
+    from optyx.core.expressions import get_all_variables
+
+    b = B.Builder(case["decls"], buffers=pool)
+    e = b.S(case["node"])
+    own = sorted(get_all_variables(e), key=lambda v: v.name)
+    names = list(case["V"]) + [v.name for v in own if v.name not in case["V"]]
+    Vobjs = b.variables(names)
+    pt = dict(case["points"][0])
+    for i, nm in enumerate(names):
+        pt.setdefault(nm, 0.6 + 0.07 * (i % 9))
+    x = np.array([pt[nm] for nm in names], dtype=float)
+    for label, f in (("evaluate", lambda: e.evaluate(dict(pt))), ("compiled", lambda: C.compile_expression(e, Vobjs)(x)),
+                     ("gradient", lambda: C.compile_gradient(e, Vobjs)(x)), ("jacobian", lambda: AD.compile_jacobian([e], Vobjs)(x)),
+                     ("hessian", lambda: AD.compile_hessian(e, Vobjs)(x) if len(names) <= 9 else None), ("degree", lambda: e.degree),
+                     ("jacobian-own-order", lambda: AD.compile_jacobian([e], own)(np.linspace(0.5, 1.2, len(own))))):
+        try:
+            with np.errstate(all="ignore"):
+                f()
+            rec.events["prefix-twin-observations"] += 1
+        except Exception:
+            rec.events["prefix-twin-observation-raised:" + label] += 1
+
+
+def collide(rng, decls, k, rec, Vnames=None, Mrec=None, pool=None):
     """Build, compile, differentiate and solve k models that collide with `decls`."""
     import optyx
     from optyx import analysis as AN
@@ -75,8 +166,19 @@ def collide(rng, decls, k, rec, Vnames=None):
     from optyx.core import compiler as C
 
     names = [d["name"] for d in decls]
+    n_twins = 0
     for j in range(k):
         mode = j % 5
+        if Mrec is not None and ((j % 7 == 3 and ("node" in Mrec or j < 30)) or j >= k - 4):
+            # the last models before M are always structurally identical twins with other data
+            # the first and the last twin differ from M in everything at once (first-wins and last-wins memos), the others in one respect
+            n_twins += 1
+            what = 4 if n_twins == 1 or j == k - 1 else (n_twins + k) % 4
+            try:
+                run_perturbed_twin(Mrec, j, pool, rec, what)
+            except Exception:
+                rec.events["perturbed-twin-raised"] += 1
+            continue
         d2 = copy.deepcopy(decls)
         if mode == 0:
             rec.cells["collision:same-names-other-bounds"] += 1
@@ -165,12 +267,12 @@ def collide(rng, decls, k, rec, Vnames=None):
     rec.events["prefix-models"] += k
 
 
-def observe_expr(case):
+def observe_expr(case, pool=None):
     """Observations on an expression M in the monitored process (same content as the twin's 'observe' job)."""
     from optyx.core import autodiff as AD
     from optyx.core import compiler as C
 
-    b = B.Builder(case["decls"])
+    b = B.Builder(case["decls"], buffers=pool)
     e = b.S(case["node"])
     V = case["V"]
     Vobjs = b.variables(V)
@@ -211,8 +313,11 @@ def same(a, b, tol):
     return a == b
 
 
-def run_expr_pair(rec, rng, twin, k, order, with_params):
+def run_expr_pair(rec, rng, twin, k, order, with_params, directed=None):
     case = None
+    if directed is not None:
+        case = directed
+        rec.cells["M:directed-family-sweep"] += 1
     if with_params and rng.random() < 0.5:
         # directed: sub-derivatives that are bare parameters (d(p*a)/da = p), parameters as coefficients / arguments
         a_, b_ = ["var", "a"], ["var", "b"]
@@ -224,6 +329,20 @@ def run_expr_pair(rec, rng, twin, k, order, with_params):
             ["bin", "+", ["bin", "*", ["bin", "*", ["par", "p"], a_], b_], ["bin", "+", ["bin", "**", a_, ["raw", 2, "int"]], ["bin", "**", b_, ["raw", 2, "int"]]]],
         ])
         case = X.finish_case(rng, X.D0, fam, rng.choice(X.VRELS), "directed-parameters", n_points=1)
+    if case is None and not with_params and rng.random() < 0.5:
+        # directed: every node family of the grammar, bare and in the top-level forms `f - c`, `c * f` (the forms with dedicated fast paths)
+        fam, node = rng.choice(X.directed_families())
+        wrap = rng.randrange(3)
+        if wrap == 1:
+            node = ["bin", "-", node, ["raw", 0.5, "float"]]
+        elif wrap == 2:
+            node = ["bin", "*", ["raw", 2.0, "float"], node]
+        try:
+            case = X.finish_case(rng, X.D0, node, rng.choice(X.VRELS), "directed:" + fam, n_points=1)
+        except (R.ShapeError, R.OutOfModel):
+            case = None
+        if case is not None and len(case["V"]) > 8:
+            case = None
     for _ in range(20):
         if case is not None:
             break
@@ -237,7 +356,13 @@ def run_expr_pair(rec, rng, twin, k, order, with_params):
     show = {**X.show(case), "k": k, "order": order}
     job = {"op": "observe", "decls": case["decls"], "node": case["node"], "V": case["V"], "point": case["points"][0], "hessian": len(case["V"]) <= 6}
     try:
-        want = twin.fresh_process_call(job)
+        jk = A.canon(job) if directed is not None else None
+        want = TWIN_MEMO.get(jk) if jk is not None else None
+        if want is None:
+            want = twin.fresh_process_call(job)
+            if jk is not None:
+                TWIN_MEMO.clear()
+                TWIN_MEMO[jk] = want
     except TwinError as ex:
         rec.inconclusive.append("twin: " + str(ex))
         return
@@ -246,13 +371,16 @@ def run_expr_pair(rec, rng, twin, k, order, with_params):
         return
     state = None
     before = cache_infos()
+    pool = POOL if rng.random() < 0.5 else None
+    rec.cells["buffers:shared-in-place" if pool is not None else "buffers:fresh-arrays"] += 1
+    show["buffers"] = "shared" if pool is not None else "fresh"
     try:
         if order == "M-prefix-M":
-            first, state = observe_expr(case)
+            first, state = observe_expr(case, pool)
             compare_obs(rec, first, want, show, "first observation of M", k, case)
-        collide(rng, case["decls"], k, rec, case["V"])
+        collide(rng, case["decls"], k, rec, case["V"], Mrec=case, pool=pool)
         mid = cache_infos()
-        got, state2 = observe_expr(case)
+        got, state2 = observe_expr(case, pool)
         after = cache_infos()
     except Exception as ex:
         rec.violation("observation-raises-after-prefix:" + type(ex).__name__, {"case": case, "show": show, "error": repr(ex)[:300]})
@@ -307,8 +435,12 @@ def run_problem_pair(rec, rng, twin, k, order, kind):
         rec.events["twin-error:" + want["error"][:30]] += 1
         return
 
+    pool = POOL if rng.random() < 0.5 else None
+    rec.cells["buffers:shared-in-place" if pool is not None else "buffers:fresh-arrays"] += 1
+    show["buffers"] = "shared" if pool is not None else "fresh"
+
     def solve_here():
-        b = B.Builder(prob["decls"])
+        b = B.Builder(prob["decls"], buffers=pool)
         P = b.problem(prob)
         with warnings.catch_warnings():
             warnings.simplefilter("ignore")
@@ -320,7 +452,7 @@ def run_problem_pair(rec, rng, twin, k, order, kind):
         if order == "M-prefix-M":
             first, (P0,) = solve_here()
             check_solve(rec, first, want, show, "first solve of M", prob)
-        collide(rng, prob["decls"], k, rec)
+        collide(rng, prob["decls"], k, rec, Mrec={"prob": prob, "method": method}, pool=pool)
         got, _ = solve_here()
     except Exception as ex:
         rec.violation("solve-raises-after-prefix:" + type(ex).__name__, {"prob": prob, "show": show, "error": repr(ex)[:300]})
@@ -350,6 +482,26 @@ def check_solve(rec, got, want, show, label, prob):
 def run(ctx, rec):
     rng = ctx.rng
     twin = Twin()
+    # systematic sweep: every node family of the grammar as M (bare / `f - c` / `c * f`), after a short prefix that ends with M's own
+    # recipe under other data, bounds, parameter values and symmetric flags
+    fams = X.directed_families()
+    for fi, (fam, node) in enumerate(fams):
+        for wrap in range(3):
+            if not ctx.mine(fi):
+                continue
+            if ctx.tier == "quick" and (fi + wrap + ctx.seed) % 3:
+                continue
+            if rec.out_of_time():
+                break
+            nd = node if wrap == 0 else (["bin", "-", node, ["raw", 0.5, "float"]] if wrap == 1 else ["bin", "*", ["raw", 2.0, "float"], node])
+            try:
+                case = X.finish_case(rng, X.D0, nd, rng.choice(X.VRELS), "directed:" + fam, n_points=1)
+            except (R.ShapeError, R.OutOfModel):
+                case = None
+            if case is None or len(case["V"]) > 12:
+                continue
+            for order in ("prefix-then-M", "M-prefix-M"):
+                run_expr_pair(rec, rng, twin, 6, order, False, directed=case)
     n = 0
     k_i = ctx.shard
     while n < N_PAIRS[ctx.tier] and not rec.out_of_time():
